@@ -16,8 +16,9 @@ Qed.
 Lemma c_kind_compat r : kind_compat (c_xhtml r) (c_tag_kind r).
 Proof.
   intros a b H. unfold c_tag_kind, find_tag.
-  assert (Hf : forall l, find (fun t : list N * tkind * list (list N * vkind) => name_eq (c_xhtml r) (fst (fst t)) a) l
-                       = find (fun t => name_eq (c_xhtml r) (fst (fst t)) b) l).
+  assert (Hf : forall l, find (fun t : list N * tkind * list (list N * vkind) =>
+                                 name_eq (c_xhtml r) (fst (fst t)) a && kind_set (snd (fst t))) l
+                       = find (fun t => name_eq (c_xhtml r) (fst (fst t)) b && kind_set (snd (fst t))) l).
   { induction l as [|t l IH]; [reflexivity|]. cbn [find]. rewrite (name_eq_right _ (fst (fst t)) a b H), IH. reflexivity. }
   rewrite Hf. reflexivity.
 Qed.
